@@ -109,12 +109,31 @@ static void vf_check_tree(void)
 #endif
 }
 
+static struct vf_el vf_stale;
 /* find agrees with the view: an element comparing equal iff one is held */
 static void vf_check_find(int key)
 {
     struct vf_el probe; const void * f; int k, any = 0;
+    const void * par;
     probe.key = key;
     f = T_FIND(&probe, NULL);
+    /* the parent output is written on EVERY path (documented: "the parent of the found element (or
+     * where it would be located)"): it is pre-loaded with a stale value, as a caller reusing the
+     * variable would have it (seeded change C01-3 wrote it only when nothing was found) */
+    par = &vf_stale;
+    VF_ASSERT(T_FIND(&probe, &par) == f, "find: the result does not depend on the parent output being requested");
+    VF_ASSERT(par != (const void *)&vf_stale, "find: the parent output is written whether or not an element was found");
+    if (f != NULL) {
+        const struct cstl_bintree_node * fn = (const struct cstl_bintree_node *)((const char *)f + T_BT->off);
+        VF_ASSERT(par == (fn->p == NULL ? NULL : (const void *)((const char *)fn->p - T_BT->off)),
+                  "find: the parent output is the parent of the found element");
+    } else if (T_BT->root == NULL) {
+        VF_ASSERT(par == NULL, "find: the parent output of an empty tree is NULL");
+    } else {
+        const struct cstl_bintree_node * pn = (const struct cstl_bintree_node *)((const char *)par + T_BT->off);
+        VF_ASSERT(par != NULL && (key < ((const struct vf_el *)par)->key ? pn->l == NULL : pn->r == NULL),
+                  "find: the parent output is the node under which the probe would be linked (its slot on that side is free)");
+    }
     for (k = 0; k < VF_POOL; k++) {
         if (vf_member[k] && vf_pool[k].key == key) {
             any = 1;
